@@ -26,10 +26,11 @@ type c12Job struct {
 }
 
 type c12Extra struct {
-	Docs   []c11Doc `json:"docs"` // Opts of the doc are ignored here
+	Docs   []c11Doc  `json:"docs"` // Opts of the doc are ignored here
 	Opts   []OptSpec `json:"opts"`
 	Jobs   []c12Job  `json:"jobs"` // one per goroutine
 	Rounds int       `json:"rounds"`
+	Salt   int       `json:"salt"` // makes attribute values (style, class, id) new to the process, so that lazily filled caches are written during the concurrent phase
 }
 
 func genC12(t *rapid.T) *Case {
@@ -53,9 +54,32 @@ func genC12(t *rapid.T) *Case {
 		ex.Jobs = append(ex.Jobs, c12Job{Doc: rapid.IntRange(0, nd-1).Draw(t, "jdoc"), Opt: rapid.IntRange(-1, len(ex.Opts)-1).Draw(t, "jopt")})
 	}
 	ex.Rounds = rapid.IntRange(1, 3).Draw(t, "rounds")
+	ex.Salt = rapid.IntRange(0, 1<<30).Draw(t, "salt")
+	for i := range ex.Docs {
+		ex.Docs[i].HTML = saltAttributes(ex.Docs[i].HTML, ex.Salt+i*1000)
+	}
 	c := &Case{Property: "C12"}
 	c.SetExtra(ex)
 	return c
+}
+
+// saltAttributes gives the first paragraphs, cells and list items of a page attribute values that
+// depend on the salt.
+func saltAttributes(page string, salt int) string {
+	n := 0
+	for _, tag := range []string{"<p>", "<td>", "<li>", "<div>", "<span>"} {
+		for k := 0; k < 6; k++ {
+			i := strings.Index(page, tag)
+			if i < 0 {
+				break
+			}
+			n++
+			v := fmt.Sprint(salt + n)
+			repl := tag[:len(tag)-1] + ` style="margin:` + v + `px" class="k` + v + `" id="i` + v + `" lang="x-` + v + `">`
+			page = page[:i] + repl + page[i+len(tag):]
+		}
+	}
+	return page
 }
 
 func raceLogSize() int64 {
@@ -142,25 +166,17 @@ func checkC12(c *Case) (*Violation, caseInfo) {
 		}
 		return trees[j.Doc%len(trees)], o
 	}
-	// sequential reference results
-	want := make([]string, len(ex.Jobs))
-	for i, j := range ex.Jobs {
-		tr, o := pick(j)
-		out := guarded(0, func() (*distiller.Result, error) { return distiller.Apply(tr, o) })
-		if out.Panicked {
-			info.Skip = "apply-panicked"
-			return nil, info
-		}
-		if out.Err != nil {
-			want[i] = "error: " + out.Err.Error()
-		} else {
-			want[i] = canonical(out.Res)
-		}
-	}
 	before := raceLogSize()
 	var mu sync.Mutex
 	var viol *Violation
-	for r := 0; r < max(1, ex.Rounds); r++ {
+	rounds := max(1, ex.Rounds)
+	gotAll := make([][]string, rounds)
+	for r := range gotAll {
+		gotAll[r] = make([]string, len(ex.Jobs))
+	}
+	// The concurrent phase comes first: state that is filled lazily on first use must be filled
+	// while several goroutines are inside Apply, not by a sequential warm-up.
+	for r := 0; r < rounds; r++ {
 		var wg sync.WaitGroup
 		start := make(chan struct{})
 		for i, j := range ex.Jobs {
@@ -183,20 +199,39 @@ func checkC12(c *Case) (*Violation, caseInfo) {
 						got = canonical(res)
 					}
 				}()
-				if got != want[i] {
-					mu.Lock()
-					if viol == nil {
-						viol = violationf("C12 concurrent-result-differs fields="+diffFields(want[i], got),
-							"goroutine %d (document %d, options %d), round %d: result differs from the sequential result of the same call:\n%s", i, j.Doc, j.Opt, r, truncate(diffCanon(want[i], got), 1500))
-					}
-					mu.Unlock()
-				}
+				mu.Lock()
+				gotAll[r][i] = got
+				mu.Unlock()
 			}(i, j)
 		}
 		close(start)
 		wg.Wait()
 	}
-	if viol == nil && raceLogSize() > before {
+	// sequential reference results
+	want := make([]string, len(ex.Jobs))
+	for i, j := range ex.Jobs {
+		tr, o := pick(j)
+		out := guarded(0, func() (*distiller.Result, error) { return distiller.Apply(tr, o) })
+		if out.Panicked {
+			info.Skip = "apply-panicked"
+			return nil, info
+		}
+		if out.Err != nil {
+			want[i] = "error: " + out.Err.Error()
+		} else {
+			want[i] = canonical(out.Res)
+		}
+	}
+	for r := 0; r < rounds && viol == nil; r++ {
+		for i, j := range ex.Jobs {
+			if gotAll[r][i] != want[i] {
+				viol = violationf("C12 concurrent-result-differs fields="+diffFields(want[i], gotAll[r][i]),
+					"goroutine %d (document %d, options %d), round %d: result differs from the sequential result of the same call:\n%s", i, j.Doc, j.Opt, r, truncate(diffCanon(want[i], gotAll[r][i]), 1500))
+				break
+			}
+		}
+	}
+	if raceLogSize() > before {
 		rep := raceLogTail()
 		viol = violationf("C12 data-race "+raceSignature(rep), "the race detector reported a data race during this workload:\n%s", rep)
 	}
